@@ -288,6 +288,7 @@ class Oracles:
         exp_user_all = {}  # including jobs of uncommitted updates (attribution for C41)
         exp_jg = {}
         tally = {}
+        tally_unc = {}  # terminal jobs of uncommitted updates (attribution of mismatches to C41)
         njobs = {}
         live = {}
         jobs_by_key = {}
@@ -349,6 +350,11 @@ class Oracles:
                         live[(b, x)] = live.get((b, x), 0) + 1
             elif s in TERMINAL or s in ('Creating', 'Running'):
                 self.fail('C41', 'uncommitted', f'C41/uncommitted_job_in_state/{s}', f'job {(b, r[jj])} update {u}')
+                if s in TERMINAL:
+                    for x in ancestors.get((b, g), [g]):
+                        d = tally_unc.setdefault((b, x), [0, 0, 0, 0])
+                        d[0] += 1
+                        d[1 if s == 'Success' else (3 if s == 'Cancelled' else 2)] += 1
             if s in ('Creating', 'Running') and r[jat] is None:
                 self.fail('C39', 'current_attempt', 'C39/running_without_attempt', f'job {(b, r[jj])} is {s}')
 
@@ -405,8 +411,14 @@ class Oracles:
             if g_ != e_:
                 names = ('n_completed', 'n_succeeded', 'n_failed', 'n_cancelled')
                 bad = [names[i] for i in range(4) if g_[i] != e_[i]]
-                self.fail('C04', 'tallies', f'C04/tally_mismatch/{bad[0]}', f'group {k}: tallies {g_} != recount {e_}')
-                self.fail('C06', 'tallies', f'C06/tally_mismatch/{bad[0]}', f'group {k}: tallies {g_} != recount {e_}')
+                un = tally_unc.get(k, [0, 0, 0, 0])
+                if g_ == [a + c for a, c in zip(e_, un)]:
+                    # explained entirely by completed jobs of uncommitted updates: that is C41's violation
+                    self.fail('C41', 'uncommitted_counted', f'C41/uncommitted_job_in_tallies/{bad[0]}',
+                              f'group {k}: tallies {g_} include {un} jobs of uncommitted updates; committed recount {e_}')
+                else:
+                    self.fail('C04', 'tallies', f'C04/tally_mismatch/{bad[0]}', f'group {k}: tallies {g_} != recount {e_}')
+                    self.fail('C06', 'tallies', f'C06/tally_mismatch/{bad[0]}', f'group {k}: tallies {g_} != recount {e_}')
         for k, r in gstate.items():
             b, g = k
             upd = r[G.col('update_id')]
